@@ -117,11 +117,11 @@ def class_map_paths(spec, doc, t, path=()):
         return out
     k = t[0]
     if k == 'union':
-        for m in t[1]:
-            if (m[0] == 'cls' and doc[0] == 'm') or (m[0] == 'seq' and doc[0] == 'q') or \
-                    (m[0] == 'map' and doc[0] == 'm'):
-                return class_map_paths(spec, doc, m, path)
-        return out
+        fits = [m for m in t[1] if (m[0] == 'cls' and doc[0] == 'm') or (m[0] == 'seq' and doc[0] == 'q') or
+                (m[0] == 'map' and doc[0] == 'm')]
+        if len(fits) == 1:
+            return class_map_paths(spec, doc, fits[0], path)
+        return out      # which member the mapping was written for cannot be told from its kind
     if k == 'cls' and doc[0] == 'm' and by[t[1]]['kind'] == 'plain':
         out.append(path)
         ptypes = {p['name']: p.get('type') for p in by[t[1]]['params']}
